@@ -92,16 +92,16 @@ V("c04-benign-new-error", "C04", PARSER, "        else:\n            raise Insuf
 V("c04-benign-hoist-peek", "C04", TOK, "        if self.peek(0) is not None and self.peek(0) in \"fF\":", "        nxt = self.peek(0)\n        if nxt is not None and nxt in \"fF\":", "silent")
 
 # ---------------------------------------------------------------- C05
-V("c05-mask-not-flipped", "C05", DS, "                mask = {frequencies.size - 1 - i: flag for i, flag in mask.items()}", "                mask = {i: flag for i, flag in mask.items()}", "fire", "mask-identity")
+V("c05-mask-not-flipped", "C05", DS, "                mask = {frequencies.size - 1 - i: flag for i, flag in mask.items()}", "                mask = {i: flag for i, flag in mask.items()}", "fire", "DataSet:state-machine")
 V("c05-swap-loop-regress", "C05", DS, "                mask = {frequencies.size - 1 - i: flag for i, flag in mask.items()}",
-  "                mask = mask.copy()\n                for i in range(0, frequencies.size):\n                    j = frequencies.size - 1 - i\n                    flag = mask.get(i, False)\n                    mask[i] = mask.get(j, False)\n                    mask[j] = flag", "fire", "mask-identity")
-V("c05-impedances-not-flipped", "C05", DS, "            frequencies = flip(frequencies)\n            impedances = flip(impedances)\n", "            frequencies = flip(frequencies)\n", "fire", "impedances-not-reversed")
+  "                mask = mask.copy()\n                for i in range(0, frequencies.size):\n                    j = frequencies.size - 1 - i\n                    flag = mask.get(i, False)\n                    mask[i] = mask.get(j, False)\n                    mask[j] = flag", "fire", "DataSet:state-machine")
+V("c05-impedances-not-flipped", "C05", DS, "            frequencies = flip(frequencies)\n            impedances = flip(impedances)\n", "            frequencies = flip(frequencies)\n", "fire", "DataSet:state-machine")
 V("c05-set-mask-nocopy", "C05", DS, "        mask = mask.copy()\n\n        for i in list(mask.keys()):", "        for i in list(mask.keys()):", "fire", "DataSet.set_mask:mask")
 V("c05-parse-nocopy", "C05", DS, "        dictionary = dictionary.copy()\n", "", "fire", "DataSet._parse:dictionary")
 V("c05-version-del", "C05", DS, '        version: int = dictionary.pop("version", VERSION)', '        version: int = dictionary.get("version", VERSION)\n        del dictionary["version"]', "fire", "R5.2")
-V("c05-lowpass-filtered-index", "C05", DS, "        for i, f in enumerate(self.get_frequencies(masked=None)):\n            if f > cutoff:", "        for i, f in enumerate(self.get_frequencies(masked=False)):\n            if f > cutoff:", "fire", "low_pass:index-space")
+V("c05-lowpass-filtered-index", "C05", DS, "        for i, f in enumerate(self.get_frequencies(masked=None)):\n            if f > cutoff:", "        for i, f in enumerate(self.get_frequencies(masked=False)):\n            if f > cutoff:", "fire", "DataSet:state-machine")
 V("c05-to-dict-key", "C05", DS, '            "real_impedances": self._impedances.real.tolist(),', '            "real": self._impedances.real.tolist(),', "fire", "R5.6")
-V("c05-getter-predicate", "C05", DS, "                for i, c in enumerate(self._impedances)\n                if self._mask.get(i, False) == masked", "                for i, c in enumerate(self._impedances)\n                if self._mask.get(i, True) == masked", "fire", "predicate-mismatch")
+V("c05-benign-getter-default", "C05", DS, "                for i, c in enumerate(self._impedances)\n                if self._mask.get(i, False) == masked", "                for i, c in enumerate(self._impedances)\n                if self._mask.get(i, True) == masked", "silent")  # every key is present in every reachable state: the default of .get() is never used
 V("c05-get-mask-alias", "C05", DS, "        return self._mask.copy()", "        return self._mask", "fire", "get_mask:alias")
 V("c05-benign-swap-half", "C05", DS, "                mask = {frequencies.size - 1 - i: flag for i, flag in mask.items()}",
   "                mask = mask.copy()\n                for i in range(0, frequencies.size // 2):\n                    j = frequencies.size - 1 - i\n                    flag = mask.get(i, False)\n                    mask[i] = mask.get(j, False)\n                    mask[j] = flag", "silent")
@@ -333,3 +333,6 @@ V("c01-all-open-not-refused", "C01", PAR, "        elif num_open_paths == len(se
 V("c03-param-upper-as-lower", "C03", PARSER, "                lower = self.param_limit(value.value, upper=False)\n                if self.accept(ForwardSlash):\n                    self.pop_token()\n                    upper = self.param_limit(value.value, upper=True)", "                upper = self.param_limit(value.value, upper=False)\n                if self.accept(ForwardSlash):\n                    self.pop_token()\n                    lower = self.param_limit(value.value, upper=True)", "fire", "Parser.param:limit-order")
 V("c03-percent-of-limit", "C03", PARSER, "            return value * limit.value / 100", "            return limit.value / 100", "fire", "Parser.param:limit-order")
 V("c03-label-before-params", "C03", PARSER, "                    lower_limits[key] = lower\n", "                    lower_limits[key] = upper\n", "fire", "Parser.parameters:round-trip")
+V("c05-getter-predicate", "C05", DS, "                for i, c in enumerate(self._impedances)\n                if self._mask.get(i, False) == masked", "                for i, c in enumerate(self._impedances)\n                if self._mask.get(i, False) != masked", "fire", "DataSet:state-machine")
+V("c05-setmask-empty-noop", "C05", DS, "        if len(mask) == 0:\n            self._mask.update({i: False for i in range(0, self._num_points)})\n            return\n", "        if len(mask) == 0:\n            return\n", "fire", "DataSet:state-machine")
+V("c05-subtract-nothing", "C05", DS, "        self._impedances = self._impedances - impedances", "        self._impedances = self._impedances - impedances * 0", "fire", "DataSet:state-machine")
